@@ -47,6 +47,15 @@ func main() {
 		cmdGen(os.Args[2:])
 	case "check":
 		cmdCheck(os.Args[2:])
+	case "bits":
+		cmdBits(os.Args[2:])
+	case "viewtypes": // types that have a typed view: an AsX constructor or a View() method on the struct form
+		for _, b := range sszreg.Registry {
+			hasView := b.New != nil && reflect.ValueOf(b.New()).MethodByName("View").IsValid()
+			if sszreg.AsTable[b.Name] != nil || hasView {
+				fmt.Println(b.Name)
+			}
+		}
 	case "types":
 		for _, b := range sszreg.Registry {
 			fmt.Println(b.Name)
@@ -88,7 +97,7 @@ func cmdGen(args []string) {
 	skipped := []string{}
 	emit := func(te *sszreg.TypeEntry, v *sszreg.Value, mode string, m int, ol bool, olpath string) {
 		var buf bytes.Buffer
-		fmt.Fprintf(&buf, `{"id":%d,"t":%q,"mode":%q,"m":%d,"ol":%v,"olpath":%q,"v":`, id, te.Name, mode, m, ol, olpath)
+		fmt.Fprintf(&buf, `{"id":%d,"t":%q,"mode":%q,"m":%d,"ol":%v,"olpath":%q,"sub":%s,"v":`, id, te.Name, mode, m, ol, olpath, subPath(te))
 		v.AppendJSON(&buf)
 		buf.WriteString("}\n")
 		w.Write(buf.Bytes())
@@ -170,7 +179,8 @@ type Report struct {
 	HasView     bool           `json:"has_view"`
 	MalTried    int            `json:"mal_tried"`
 	PlanHash    int            `json:"plan_hashes"`
-	OddVectors  bool           `json:"odd_vectors"` // the type contains a vector/bitvector whose length is not a power of two
+	OddVectors  bool           `json:"odd_vectors"`      // the type contains a vector/bitvector whose length is not a power of two
+	Probes      map[string]int `json:"probes,omitempty"` // conversion / typed-view / helper probes run on this case
 	AliasProbes int            `json:"alias_probes"`
 	MalByKind   map[string]int `json:"mal_by_kind,omitempty"`
 }
@@ -364,6 +374,9 @@ func checkOne(te *sszreg.TypeEntry, b *sszreg.Binding, spec *common.Spec, hFn tr
 		if p, _ := res["olpath"].(string); true {
 			why += " @" + p
 		}
+		if b.New == nil {
+			return rep
+		}
 		obj := b.New()
 		if err := deserialize(obj, spec, ser); err == nil {
 			devMal("malformed_accepted", "Deserialize", "overlimit", why, "encoding=%s accepted", hx(ser))
@@ -396,15 +409,18 @@ func checkOne(te *sszreg.TypeEntry, b *sszreg.Binding, spec *common.Spec, hFn tr
 	rep.PlanHash = nh
 
 	// ---------------- struct form: decode the canonical encoding
-	obj := b.New()
-	rep.Checks++
-	if err := deserialize(obj, spec, ser); err != nil {
-		cl := "valid_refused"
-		if isPanic(err) {
-			cl = "panic"
+	var obj interface{}
+	if b.New != nil { // view-only bindings have no struct form
+		obj = b.New()
+		rep.Checks++
+		if err := deserialize(obj, spec, ser); err != nil {
+			cl := "valid_refused"
+			if isPanic(err) {
+				cl = "panic"
+			}
+			dev("C04", cl, "Deserialize", "canonical encoding %s refused: %v", hx(ser), err)
+			obj = nil
 		}
-		dev("C04", cl, "Deserialize", "canonical encoding %s refused: %v", hx(ser), err)
-		obj = nil
 	}
 	reSer := func(o interface{}, method, what string) {
 		rep.Checks++
@@ -601,6 +617,9 @@ func checkOne(te *sszreg.TypeEntry, b *sszreg.Binding, spec *common.Spec, hFn tr
 	}
 
 	// ---------------- malformed encodings (refused by the specification's decoder)
+	// ---------------- conversions, typed views, derived helpers (probes.go)
+	runProbes(&probeCtx{te: te, b: b, spec: spec, hFn: hFn, res: res, ser: ser, planRoot: planRoot, typ: typ, rep: rep, dev: dev, note: note})
+
 	mal, _ := res["mal"].([]interface{})
 	rep.MalByKind = map[string]int{}
 	for _, mx := range mal {
@@ -611,11 +630,13 @@ func checkOne(te *sszreg.TypeEntry, b *sszreg.Binding, spec *common.Spec, hFn tr
 		rep.MalTried++
 		rep.MalByKind[malKind(class)]++
 		rep.Checks++
-		o := b.New()
-		if err := deserialize(o, spec, data); err == nil {
-			devMal("malformed_accepted", "Deserialize", class, why, "encoding=%s accepted (valid encoding was %s)", hx(data), hx(ser))
-		} else if isPanic(err) {
-			devMal("panic", "Deserialize", class, why, "encoding=%s: %v", hx(data), err)
+		if b.New != nil {
+			o := b.New()
+			if err := deserialize(o, spec, data); err == nil {
+				devMal("malformed_accepted", "Deserialize", class, why, "encoding=%s accepted (valid encoding was %s)", hx(data), hx(ser))
+			} else if isPanic(err) {
+				devMal("panic", "Deserialize", class, why, "encoding=%s: %v", hx(data), err)
+			}
 		}
 		if typ != nil {
 			rep.Checks++
@@ -645,6 +666,25 @@ func hasOddVector(s *sszreg.Schema) bool {
 		}
 	}
 	return false
+}
+
+// subPath: the field whose own merkle plan TLC also emits (1-based positions): the message of a signed block, the
+// execution payload of a block body
+func subPath(te *sszreg.TypeEntry) string {
+	if te.Schema.Kind != "container" {
+		return "[]"
+	}
+	if strings.HasSuffix(te.Name, ".SignedBeaconBlock") {
+		return "[1]"
+	}
+	if strings.HasSuffix(te.Name, ".BeaconBlockBody") {
+		for i, f := range te.Schema.Fields {
+			if f.Name == "execution_payload" {
+				return fmt.Sprintf("[%d]", i+1)
+			}
+		}
+	}
+	return "[]"
 }
 
 func malKind(class string) string {
